@@ -86,7 +86,7 @@ def o_callsite(_):
 ORACLES = {"prefix_untouched": o_prefix, "function_value_applied": o_callsite}
 
 VALUES = [0, 1, 2, 3, -1, 5, ["R", 1, 2], ["R", -3, 2], "ab", "", "a b", ["l", [1, 2, 3]], ["l", []], ["l", [["l", [1, 2]], ["l", [3]]]], ["l", ["a", "bc"]],
-          ["L", [1, 2, 3]], ["L", []], ["F", "d"], ["F", "+"]]
+          ["L", [1, 2, 3]], ["L", []], ["F", "d"], ["F", "+"], ["l", [["F", "d"]]], ["l", [7, ["F", "+"]]], ["L", [["F", "+"], 2]]]
 
 
 def run(ctx, widen=False):
